@@ -61,12 +61,11 @@ Record rot_ok (M : cmesh K) (a b : nat) (k : Z) (q : idx) : Prop := {
   ok_ab : a <> b;
   ok_a : (a < cm_nd M)%nat;
   ok_b : (b < cm_nd M)%nat;
-  ok_per : Z.odd k = true -> nth a (cm_per M) false = nth b (cm_per M) false;
   ok_q : in_rng (cm_sh (rotM K M a b k)) q
 }.
 
 Arguments ok_wf {M a b k q}. Arguments ok_ab {M a b k q}. Arguments ok_a {M a b k q}.
-Arguments ok_b {M a b k q}. Arguments ok_per {M a b k q}. Arguments ok_q {M a b k q}.
+Arguments ok_b {M a b k q}. Arguments ok_q {M a b k q}.
 
 Lemma ok_len M a b k q : rot_ok M a b k q -> length q = cm_nd M.
 Proof. intros H. destruct (ok_q H) as [Hq _]. rewrite Hq. apply rotM_nd. Qed.
@@ -79,7 +78,7 @@ Theorem dax_rot90_cell (M : cmesh K) a b k x order g valid (q : idx) :
   = msgn K (rot_fl a b k x) order
       (dax K M order (src_ax a b k x) g valid (rho (cm_sh M) a b k q ++ [0%nat])).
 Proof.
-  intros Hok Hx Ho. pose proof (@ok_len _ _ _ _ _ Hok) as Hq. destruct Hok as [Hwf Hab Ha Hb Hper Hrng].
+  intros Hok Hx Ho. pose proof (@ok_len _ _ _ _ _ Hok) as Hq. destruct Hok as [Hwf Hab Ha Hb Hrng].
   rewrite (@dax_rot90 K HK) by assumption.
   rewrite rot90_app by (try assumption; exact Hq). reflexivity.
 Qed.
